@@ -1,6 +1,7 @@
 import Vorbis.File.Model
 namespace Vorbis.Props.C08
 open Vorbis Vorbis.File Vorbis.Block
+set_option linter.unusedSimpArgs false
 
 /-- an out-of-range sample position is refused by the page seek and nothing at all is changed -/
 theorem C08_page_seek_rejects_unchanged (ph : Phys) (f : Int → M Int) (pos : Int) (s : VF)
@@ -19,5 +20,55 @@ theorem C08_seek_rejects_unchanged (ph : Phys) (f : Int → M Int) (pos : Int) (
   simp only [StateT.run, bind, StateT.bind] at h ⊢
   rw [h]
   simp [OV_EINVAL, Generated.OV_EINVAL, pure, StateT.pure]
+
+theorem sumLen_succ (pl : Array Int) (n : Nat) : sumLen pl (n + 1) = sumLen pl n + pl[n * 2 + 1]! := by
+  unfold sumLen
+  rw [List.range_succ, List.foldl_append]
+  rfl
+
+theorem sumLen_zero (pl : Array Int) : sumLen pl 0 = 0 := by
+  unfold sumLen; rfl
+
+theorem go_spec (pl : Array Int) (pos : Int) (h0 : 0 ≤ pos) :
+    ∀ (k : Nat) (total : Int), 1 ≤ k → total = sumLen pl k → pos ≤ total →
+      let r := linkFor.go pl pos k total
+      0 ≤ r.1 ∧ r.1 < k ∧ r.2 = sumLen pl r.1.toNat ∧ r.2 ≤ pos ∧ pos ≤ r.2 + pl[r.1.toNat * 2 + 1]! := by
+  intro k
+  induction k with
+  | zero => intro total hk; omega
+  | succ k' ih =>
+      intro total _ ht hp
+      simp only [linkFor.go]
+      have hs := sumLen_succ pl k'
+      by_cases hc : pos ≥ total - pl[k' * 2 + 1]!
+      · simp only [hc, if_true]
+        refine ⟨by omega, by omega, ?_, ?_, ?_⟩
+        · simp only [Int.toNat_natCast]; omega
+        · first | exact hc | trivial | omega
+        · simp only [Int.toNat_natCast]; omega
+      · simp only [hc, if_false]
+        have hk1 : 1 ≤ k' := by
+          cases k' with
+          | zero =>
+              have hz : sumLen pl 0 = 0 := sumLen_zero pl
+              rw [hz] at hs
+              omega
+          | succ n => omega
+        have := ih (total - pl[k' * 2 + 1]!) hk1 (by omega) (by omega)
+        simp only [] at this
+        obtain ⟨a, b, c, d, e⟩ := this
+        exact ⟨a, by omega, c, d, e⟩
+
+/-- the link a valid sample position is assigned to really contains it -/
+theorem C08_link_lookup (pl : Array Int) (links : Nat) (pos : Int) (hl : 0 < links) (h0 : 0 ≤ pos) (h1 : pos ≤ sumLen pl links) :
+    0 ≤ (linkFor pl links pos).1 ∧ (linkFor pl links pos).1 < links ∧
+    (linkFor pl links pos).2 = sumLen pl (linkFor pl links pos).1.toNat ∧
+    (linkFor pl links pos).2 ≤ pos ∧
+    pos ≤ (linkFor pl links pos).2 + pl[(linkFor pl links pos).1.toNat * 2 + 1]! := by
+  unfold linkFor
+  exact go_spec pl pos h0 links (sumLen pl links) hl rfl h1
+
+
+example : linkFor #[0, 10, 0, 5, 0, 7] 3 15 = (2, 15) ∧ linkFor #[0, 10, 0, 5, 0, 7] 3 14 = (1, 10) ∧ linkFor #[0, 10, 0, 0, 0, 7] 3 10 = (2, 10) := by decide
 
 end Vorbis.Props.C08
